@@ -11,6 +11,7 @@ import (
 	"fmt"
 	"os"
 
+	"free5gclib/milenage"
 	"free5gclib/nas"
 	"free5gclib/nas/nasMessage"
 	"free5gclib/nas/nasTestpacket"
@@ -37,7 +38,7 @@ func num(m hmap, k string, def int) int {
 	return def
 }
 
-var opNames = []string{"ngap.Encoder", "ngap.Decoder", "nas.plain-encode", "nas.plain-decode", "NASEncode", "NASDecode", "DeriveRESstarAndSetKey", "NASEncrypt", "NASMacCalculate"}
+var opNames = []string{"ngap.Encoder", "ngap.Decoder", "nas.plain-encode", "nas.plain-decode", "NASEncode", "NASDecode", "DeriveRESstarAndSetKey", "NASEncrypt", "NASMacCalculate", "milenage"}
 
 type taskState struct {
 	seed   uint64
@@ -175,6 +176,23 @@ func (t *taskState) runOp(k int) (res string) {
 		p := r.Bytes(r.Pick(r.Range(1, 70), r.Range(1, 70), r.Range(1, 70), r.Range(250, 270), r.Range(500, 1100), r.Range(1, 70), r.Range(16500, 33000)))
 		err := security.NASEncrypt(uint8(r.Intn(3)), key16(r.Bytes(16)), uint32(r.Intn(1<<24)), 1, uint8(r.Intn(2)), p)
 		return fmt.Sprintf("%x %v", p, err)
+	case 9:
+		// the home-environment side of the key derivation: the library's Milenage, per-task K/OP/RAND
+		k, op, rnd, sqn, amf := r.Bytes(16), r.Bytes(16), r.Bytes(16), r.Bytes(6), r.Bytes(2)
+		opc, err := milenage.GenerateOPC(k, op)
+		if err != nil {
+			return "ERR " + err.Error()
+		}
+		ma, ms := make([]byte, 8), make([]byte, 8)
+		e1 := milenage.F1(opc, k, rnd, sqn, amf, ma, ms)
+		res, ck, ik, ak, aks := make([]byte, 8), make([]byte, 16), make([]byte, 16), make([]byte, 6), make([]byte, 6)
+		e2 := milenage.F2345(opc, k, rnd, res, ck, ik, ak, aks)
+		autn, ik2, ck2, ak2, res2 := make([]byte, 16), make([]byte, 16), make([]byte, 16), make([]byte, 6), make([]byte, 8)
+		rl := uint(8)
+		milenage.MilenageGenerate(opc, amf, k, sqn, rnd, autn, ik2, ck2, ak2, res2, &rl)
+		auts := make([]byte, 14)
+		v := milenage.Milenage_check(opc, k, sqn, rnd, autn, ik2, ck2, res2, &rl, auts)
+		return fmt.Sprintf("%x %x %x %v %x %x %x %x %x %v %x %d %x", opc, ma, ms, e1, res, ck, ik, ak, aks, e2, autn, v, auts)
 	default:
 		mac, err := security.NASMacCalculate(uint8(1+r.Intn(2)), key16(r.Bytes(16)), uint32(r.Intn(1<<24)), 1, uint8(r.Intn(2)), r.Bytes(r.Pick(r.Range(1, 70), r.Range(1, 70), r.Range(250, 270), r.Range(500, 1100))))
 		return fmt.Sprintf("%x %v", mac, err)
